@@ -117,7 +117,11 @@ def main():
                               'region boundaries taken from the listing `xcmp -S` (DATA directives, label _exit) of the same source']
     ck.assumptions = ['well-defined = extracted XSem says Behaviour; others are counted and dropped',
                       'code words = image words that are not DATA directives; free memory = words from the end of the image to 199999',
-                      'boundary programs are sized from the measured stack use of the real binary (lowest mem[1] reached on the ISA)']
+                      'boundary programs are sized from the measured stack use of the real binary (lowest mem[1] reached on the ISA)',
+                      'proved part (Properties_C08.v): the monitor is complete and sound for ALL runs; and, for the statement fragment without calls '
+                      '(C08_frame_discipline_partial), the code of the model leaves mem[1] and all protected words unchanged and changes memory only in the '
+                      "procedure's temporaries, its outgoing area and the words of variables in scope, between statement boundaries; "
+                      'NOT proved: the per-access clauses for every program (decided here per run by the proved monitor), calls, the entry/exit stub']
     if os.path.exists(os.path.join(vlib.COQ, 'Properties_%s.v' % PID)):
         ok = ck.proofs()
         ck.log('proofs', 'ok' if ok else 'BROKEN')
